@@ -129,11 +129,11 @@ def checkCase (j : Json) : Except String Verdict := do
     let wantReached := ((if okA then [svcA] else []) ++ (if okB then [svcB] else [])).toArray.qsort (· < ·) |>.toList
     v := v.br (if boolD ov "overlapped" then "overlap/overlapped" else "overlap/not-overlapped")
     v := { v with nontrivial := true }
-    v := v.cmp 0 "overlap.status" ((if okA then 200 else 403 : Int), (if okB then 200 else 403 : Int)) (intD ov "statusA", intD ov "statusB") ["C13", "C01", "C04", "C11"]
-    v := v.cmp 0 "overlap.reached" wantReached (strs ov "reached") ["C13", "C01", "C04", "C11"]
+    v := v.cmp 0 "overlap.status" ((if okA then 200 else 403 : Int), (if okB then 200 else 403 : Int)) (intD ov "statusA", intD ov "statusB") ["C13", "C01", "C04", "C11", "C16"]
+    v := v.cmp 0 "overlap.reached" wantReached (strs ov "reached") ["C13", "C01", "C04", "C11", "C16"]
     for (ok, svc, h) in [(okA, svcA, strD ovIn "hostA"), (okB, svcB, strD ovIn "hostB")] do
       if !ok && (strs ov "reached").contains svc then
-        for p in ["C13", "C01", "C11"] do
+        for p in ["C13", "C01", "C11", "C16", "C04"] do
           v := v.mon p "judged_under_own_upstream_policy" 0 s!"{h}: user in {ug} reached {svc} while another upstream's revalidation was open"
     return v
   let steps := ((jarr j "steps").toOption.getD #[]).toList
@@ -320,7 +320,7 @@ def checkCase (j : Json) : Except String Verdict := do
             -- C11: the user satisfies at least one allow rule (group rule: per the session's confirmed groups)
             let grp : GroupAns := if u.groups == ["*"] || u.groups.any (s.groups.contains ·) then .member else .notMember
             if !specAdmit lower u.rules s.email grp && !(u.rules.groups != [] && s.refresh ≥ 0 && s.valid ≥ 0) then
-              v := v.mons ["C11", "C01"] "served_without_any_rule" idx
+              v := v.mons ["C11", "C01", "C13"] "served_without_any_rule" idx
         | none, k => v := v.mon "C01" "upstream_without_session" idx k
       -- C11 (stability): a fresh, otherwise valid session of a user who satisfies a rule must be served, as at login
       if !reached && !whitel && handlerOf (strD ora "escapedPath") == "Proxy" && status == 403 then
@@ -430,6 +430,8 @@ def checkCase (j : Json) : Except String Verdict := do
             strD stt "sid" == strD csr "sid" && strD stt "uri" == strD csr "uri"
           let rd := getJ inp "ansRedeem"
           if !okFlow then v := v.mon "C06" "session_without_matching_flow" idx
+          -- both were *sealed values as sealed*: a re-spelling of a sealed value (line breaks, padding) is another string
+          if !(boolD stt "asSealed") || !(boolD csr "asSealed") then v := v.mon "C06" "session_from_respelled_value" idx
           if strD inp "errParam" != "" || strD inp "code" == "" || strD rd "kind" != "ok" || strD rd "email" == "" then
             v := v.mon "C06" "session_without_redeemed_identity" idx
           if strD loc "raw" != strD ora "flowLocation" then v := v.mon "C06" "redirect_is_recorded_uri" idx s!"{strD loc "raw"} vs {strD ora "flowLocation"}"
@@ -440,7 +442,7 @@ def checkCase (j : Json) : Except String Verdict := do
           -- C11 at login: admitted ⇒ documented any-of
           let (gres, _) := validateGroup u.groups a
           let gans : GroupAns := match gres with | .ok _ true => .member | .ok _ false => .notMember | _ => .error
-          if !specAdmit lower u.rules (toB (strD rd "email")) gans then v := v.mons ["C11", "C01"] "login_admits_without_rule" idx
+          if !specAdmit lower u.rules (toB (strD rd "email")) gans then v := v.mons ["C11", "C01", "C13"] "login_admits_without_rule" idx
         else
           -- C11 at login: everything else fine and the user satisfies a rule ⇒ must be admitted
           let rd := getJ inp "ansRedeem"
